@@ -47,6 +47,9 @@ pub struct Shadow {
     m_explicit: Vec<usize>,
     m_stack: Vec<(usize, usize, Vec<usize>, Vec<usize>)>,
     scope: usize,
+    /// (number of alternatives expected once the failing negative look-around has discarded
+    /// its own, description) -- checked at the next backtrack or at the end of the run
+    pending_neg: Option<(usize, String)>,
     pub history: String,
     pub history_ops: usize,
     pub ops: u64,
@@ -129,6 +132,7 @@ impl RunGuard {
                 s.m_explicit.clear();
                 s.m_stack.clear();
                 s.scope = 0;
+                s.pending_neg = None;
                 s.history.clear();
                 s.history_ops = 0;
                 s.violations.clear();
@@ -140,6 +144,7 @@ impl RunGuard {
 
 impl Drop for RunGuard {
     fn drop(&mut self) {
+        shadow_neg_check();
         let st = RUN.with(|r| r.borrow().clone());
         LAST_RUN.with(|r| *r.borrow_mut() = st);
     }
@@ -168,6 +173,39 @@ pub fn vm_step() {
 #[inline]
 pub fn vm_backtrack() {
     RUN.with(|r| r.borrow_mut().backtracks += 1);
+    shadow_neg_check();
+}
+
+/// Entering the FailNegativeLookAround arm at `pc`: the look-around's own alternative is the
+/// topmost one that resumes at pc + 1; after the arm exactly the alternatives below it remain.
+pub fn shadow_neg_enter(pc: usize) {
+    SHADOW.with(|s| {
+        let mut s = s.borrow_mut();
+        if !s.enabled {
+            return;
+        }
+        let pos = s.m_stack.iter().rposition(|b| b.0 == pc + 1);
+        match pos {
+            Some(k) => s.pending_neg = Some((k, std::format!("negative look-around at pc {}", pc))),
+            None => s.violations.push(std::format!("negative look-around at pc {} fails but its own alternative is not on the stack", pc)),
+        }
+    });
+}
+
+pub fn shadow_neg_check() {
+    SHADOW.with(|s| {
+        let mut s = s.borrow_mut();
+        if !s.enabled {
+            return;
+        }
+        if let Some((want, what)) = s.pending_neg.take() {
+            s.rec(std::format!("N{}", want));
+            if s.m_stack.len() != want {
+                let m = std::format!("{}: {} alternatives left after its failure, expected exactly the {} created before it was entered", what, s.m_stack.len(), want);
+                s.violations.push(m);
+            }
+        }
+    });
 }
 
 #[inline]
